@@ -516,8 +516,24 @@ fn string_number(vm: &mut Vm) -> Result<VCell, Error> {
     };
     let s = pop_string(vm, "string->number")?;
     let s = s.borrow();
-    let s = s.as_str();
-    match Number::parse_with_exactness(s, Exactness::Unspecified, radix) {
+    let mut s = s.as_str();
+    // The radix and exactness prefixes of a numeric literal are part of its
+    // spelling: (string->number "#xff") is 255, like the literal #xff
+    let mut radix = radix;
+    let mut exactness = Exactness::Unspecified;
+    while let Some(prefix) = s.get(..2).filter(|it| it.starts_with('#')) {
+        match prefix {
+            "#e" => exactness = Exactness::Exact,
+            "#i" => exactness = Exactness::Inexact,
+            "#d" => radix = 10,
+            "#b" => radix = 2,
+            "#o" => radix = 8,
+            "#x" => radix = 16,
+            _ => return Ok(false.into()),
+        }
+        s = &s[2..];
+    }
+    match Number::parse_with_exactness(s, exactness, radix) {
         Some(num) => Ok(VCell::Number(num)),
         None => Ok(false.into()),
     }
